@@ -241,11 +241,911 @@ Proof.
       do 2 f_equal. lia.
 Qed.
 
+Lemma Forall_firstn {A} (P : A -> Prop) k l : Forall P l -> Forall P (firstn k l).
+Proof. intros H; revert k; induction H; intros [|k]; simpl; auto. Qed.
+
 Lemma sumz_items_back hs t : Forall (fun h => 0 <= h) hs -> 0 <= sumz (items_back hs t) <= sumz hs.
 Proof.
   intros H. unfold items_back. destruct ((t <? 0) || (zlen hs <=? t)).
   - simpl. pose proof (sumz_nonneg hs H); lia.
   - rewrite sumz_rev. split; [|apply sumz_firstn; auto].
-    apply sumz_nonneg. apply Forall_forall. intros x Hx. apply firstn_In in Hx.
-    rewrite Forall_forall in H; auto.
+    apply sumz_nonneg. apply Forall_firstn. exact H.
+Qed.
+
+(* ---------------------------------------------------------------------------------- *)
+(* Dynamic: geometry of the drawn children                                             *)
+(* ---------------------------------------------------------------------------------- *)
+
+Definition geom_ok (gap top0 : Z) (hs : list Z) (cs : list child) : Prop :=
+  heights_ok hs cs = true /\ consecutive cs = true /\ spacing gap top0 cs = true.
+
+Definition hd_is (i ah : Z) (cs : list child) : Prop :=
+  match cs with [] => True | c :: _ => c_idx c = i /\ c_row c = ah end.
+
+Lemma geom_nil gap top0 hs : geom_ok gap top0 hs [].
+Proof. repeat split. Qed.
+
+Lemma geom_cons gap top0 hs c cs :
+  builder hs (c_idx c) = Some (c_h c) -> geom_ok gap top0 hs cs ->
+  hd_is (c_idx c + 1) (c_row c + c_h c + (if c_idx c <? top0 then 0 else gap)) cs ->
+  geom_ok gap top0 hs (c :: cs).
+Proof.
+  intros Hb (H1 & H2 & H3) Hh. unfold geom_ok, heights_ok, consecutive, spacing in *.
+  split; [|split].
+  - simpl. rewrite Hb. simpl. rewrite Z.eqb_refl. exact H1.
+  - destruct cs as [|b t]; [reflexivity|]. rewrite adj_cons2, H2. destruct Hh as [Hi _]. lia.
+  - destruct cs as [|b t]; [reflexivity|]. rewrite adj_cons2, H3. destruct Hh as [_ Hr]. lia.
+Qed.
+
+Lemma down_loop_props gap top0 hs wants cur H co :
+  zlen hs < 18446744073709551616 ->
+  forall suffix i ah, suffix = items_from hs i -> 0 <= i -> top0 <= i ->
+  let cs := down_loop suffix i ah wants cur H gap co in
+  geom_ok gap top0 hs cs /\ hd_is i ah cs /\ Forall (fun c => c_col c = co) cs /\
+  (suffix <> [] -> cs <> []).
+Proof.
+  intros Hn. induction suffix as [|h rest IH]; intros i ah Hs Hi Ht.
+  - simpl. split; [apply geom_nil|]. split; [exact I|]. split; [constructor|congruence].
+  - symmetry in Hs. apply items_from_cons in Hs as (Hr & Hb & Hrest).
+    assert (Hu : u64 (i + 1) = i + 1) by (apply u64_small; lia).
+    specialize (IH (i + 1) (ah + h + gap) Hrest ltac:(lia) ltac:(lia)).
+    cbn zeta in IH. destruct IH as (G & Hh & Hc & _).
+    assert (Gc : geom_ok gap top0 hs (mkC i ah co h :: down_loop rest (i + 1) (ah + h + gap) wants cur H gap co)).
+    { apply geom_cons; [simpl; exact Hb|exact G|]. simpl. destruct (i <? top0) eqn:E; [lia|]. exact Hh. }
+    cbn [down_loop]. rewrite Hu. cbn zeta.
+    destruct (wants && (i + 1 <=? cur)).
+    + split; [exact Gc|]. split; [simpl; auto|]. split; [constructor; auto|congruence].
+    + destruct (H <=? ah + h + gap).
+      * split; [apply geom_cons; [simpl; exact Hb|apply geom_nil|exact I]|].
+        split; [simpl; auto|]. split; [repeat constructor|congruence].
+      * split; [exact Gc|]. split; [simpl; auto|]. split; [constructor; auto|congruence].
+Qed.
+
+Lemma geom_hd_builder gap top0 hs c cs : geom_ok gap top0 hs (c :: cs) -> builder hs (c_idx c) = Some (c_h c).
+Proof.
+  intros (H & _ & _). unfold heights_ok in H. simpl in H. apply andb_prop in H as [H _].
+  destruct (builder hs (c_idx c)) as [x|]; simpl in H; [|discriminate]. f_equal. lia.
+Qed.
+
+Definition sumh (cs : list child) : Z := sumz (map c_h cs).
+
+Lemma ins_loop_props gap top0 hs co :
+  forall before t ah acc,
+    before = items_back hs t -> Forall (fun h => 0 <= h) before ->
+    0 <= t < top0 -> t < 18446744073709551616 ->
+    geom_ok gap top0 hs acc -> hd_is (t + 1) ah acc -> Forall (fun c => c_col c = co /\ c_idx c < top0) acc ->
+    let '(t', ah', cs) := ins_loop before t ah co acc in
+    geom_ok gap top0 hs cs /\ hd_is t' ah' cs /\ Forall (fun c => c_col c = co /\ c_idx c < top0) cs /\
+    0 <= t' <= t /\
+    (acc <> [] -> last_opt cs = last_opt acc) /\
+    (acc = [] -> before <> [] -> exists l, last_opt cs = Some l /\ c_idx l = t) /\
+    (before = [] -> cs = acc) /\
+    sumh cs <= sumh acc + sumz before.
+Proof.
+  induction before as [|h rest IH]; intros t ah acc Hb Hnn Ht Ht64 G Hh Hc.
+  - simpl. split; [exact G|]. split.
+    { destruct acc as [|c acc]; [exact I|]. exfalso.
+      apply geom_hd_builder in G. apply builder_some in G. destruct Hh as [Hi _].
+      symmetry in Hb. apply items_back_nil in Hb; lia. }
+    split; [exact Hc|]. split; [lia|]. split; [auto|]. split; [congruence|]. split; [auto|]. simpl; lia.
+  - symmetry in Hb. apply items_back_cons in Hb as (Hr & Hbd & Hrest).
+    pose proof (Forall_inv Hnn) as Hh0. pose proof (Forall_inv_tail Hnn) as Hnn'. cbv beta in Hh0.
+    set (c := mkC t (ah - h) co h).
+    assert (G' : geom_ok gap top0 hs (c :: acc)).
+    { apply geom_cons; [exact Hbd|exact G|]. simpl. destruct (t <? top0) eqn:E; [|lia].
+      replace (ah - h + h + 0) with ah by lia. exact Hh. }
+    assert (Hc' : Forall (fun c => c_col c = co /\ c_idx c < top0) (c :: acc)) by (constructor; [simpl; split; [reflexivity|lia]|exact Hc]).
+    assert (Hsum : sumh (c :: acc) = h + sumh acc) by reflexivity.
+    pose proof (sumz_nonneg _ Hnn') as Hrn.
+    cbn [ins_loop]. fold c. destruct ((t =? 0) || (ah - h <=? 0)) eqn:E.
+    + split; [exact G'|]. split; [simpl; auto|]. split; [exact Hc'|]. split; [lia|].
+      split; [intros Hne; apply last_opt_cons_ne; exact Hne|].
+      split; [intros -> _; exists c; auto|]. split; [discriminate|]. rewrite Hsum. simpl. lia.
+    + assert (Hu : u64 (t - 1) = t - 1) by (apply u64_small; lia). rewrite Hu.
+      destruct (t =? 0) eqn:E0; [simpl in E; discriminate|].
+      specialize (IH (t - 1) (ah - h) (c :: acc) Hrest Hnn' ltac:(lia) ltac:(lia) G').
+      replace (t - 1 + 1) with t in IH by lia.
+      specialize (IH (conj eq_refl eq_refl) Hc').
+      destruct (ins_loop rest (t - 1) (ah - h) co (c :: acc)) as [[t' ah'] cs].
+      destruct IH as (I1 & I2 & I3 & I4 & I5 & _ & _ & I8).
+      split; [exact I1|]. split; [exact I2|]. split; [exact I3|]. split; [lia|].
+      assert (Hl : last_opt cs = last_opt (c :: acc)) by (apply I5; discriminate).
+      split; [intros Hne; rewrite Hl; apply last_opt_cons_ne; exact Hne|].
+      split; [intros -> _; rewrite Hl; exists c; auto|]. split; [discriminate|].
+      rewrite Hsum in I8. simpl. lia.
+Qed.
+
+Lemma heights_nonneg hs cs :
+  Forall (fun h => 0 <= h) hs -> heights_ok hs cs = true -> Forall (fun c => 0 <= c_h c) cs.
+Proof.
+  intros Hn H. unfold heights_ok in H. rewrite forallb_forall in H. apply Forall_forall.
+  intros c Hc. specialize (H c Hc). destruct (builder hs (c_idx c)) as [x|] eqn:E; simpl in H; [|discriminate].
+  assert (x = c_h c) by lia. subst x. unfold builder in E. destruct (zlen hs <=? c_idx c); [discriminate|].
+  apply zget_In in E. rewrite Forall_forall in Hn. auto.
+Qed.
+
+Lemma sumh_nonneg cs : Forall (fun c => 0 <= c_h c) cs -> 0 <= sumh cs.
+Proof. induction 1; unfold sumh in *; simpl; lia. Qed.
+
+Lemma geom_tail gap top0 hs c cs : geom_ok gap top0 hs (c :: cs) -> geom_ok gap top0 hs cs.
+Proof.
+  intros (G1 & G2 & G3). unfold geom_ok, heights_ok, consecutive, spacing in *.
+  simpl in G1. apply andb_prop in G1 as [_ G1]. apply adj_tail in G2. apply adj_tail in G3. auto.
+Qed.
+
+Lemma rerow_props gap top0 hs :
+  forall cs row,
+    geom_ok gap top0 hs cs -> Forall (fun c => 0 <= c_h c) cs -> Forall (fun c => c_idx c < top0) cs ->
+    0 <= row -> row + sumh cs < 65536 ->
+    geom_ok gap top0 hs (rerow cs row) /\
+    map c_idx (rerow cs row) = map c_idx cs /\ map c_col (rerow cs row) = map c_col cs /\
+    hd_is (match cs with [] => 0 | c :: _ => c_idx c end) row (rerow cs row).
+Proof.
+  induction cs as [|c cs IH]; intros row G Hh Hi Hr Hs.
+  - simpl. split; [apply geom_nil|]. auto.
+  - pose proof (Forall_inv Hh) as Hh0. pose proof (Forall_inv_tail Hh) as Hh'.
+    pose proof (Forall_inv Hi) as Hi0. pose proof (Forall_inv_tail Hi) as Hi'. cbv beta in Hh0, Hi0.
+    pose proof (sumh_nonneg cs Hh') as Hsn.
+    assert (Hsum : sumh (c :: cs) = c_h c + sumh cs) by reflexivity.
+    pose proof (geom_tail _ _ _ _ _ G) as Gt.
+    assert (Hu : u16 (row + c_h c) = row + c_h c) by (apply u16_small; lia).
+    specialize (IH (row + c_h c) Gt Hh' Hi' ltac:(lia) ltac:(lia)).
+    destruct IH as (I1 & I2 & I3 & I4).
+    cbn [rerow]. rewrite Hu. split; [|split; [|split]].
+    + apply geom_cons; [simpl; eapply geom_hd_builder; exact G|exact I1|].
+      simpl. destruct (c_idx c <? top0) eqn:E; [|lia].
+      replace (row + c_h c + 0) with (row + c_h c) by lia.
+      destruct cs as [|b cs]; [exact I|]. simpl. split; [|reflexivity].
+      destruct G as (_ & G2 & _). unfold consecutive in G2. rewrite adj_cons2 in G2. lia.
+    + simpl. f_equal. exact I2.
+    + simpl. f_equal. exact I3.
+    + simpl. auto.
+Qed.
+
+Lemma last_opt_map {A B} (f : A -> B) l : last_opt (map f l) = option_map f (last_opt l).
+Proof.
+  induction l as [|a t IH]; [reflexivity|]. destruct t as [|b t]; [reflexivity|].
+  change (map f (a :: b :: t)) with (f a :: f b :: map f t).
+  change (last_opt (f a :: f b :: map f t)) with (last_opt (map f (b :: t))). rewrite IH. reflexivity.
+Qed.
+
+Lemma Forall_by_map {A B} (f : A -> B) (P : B -> Prop) l l' :
+  map f l' = map f l -> Forall (fun x => P (f x)) l -> Forall (fun x => P (f x)) l'.
+Proof. intros E H. apply Forall_map. rewrite E. apply Forall_map. exact H. Qed.
+
+Definition hd_idx_is (t : Z) (cs : list child) : Prop :=
+  match cs with [] => True | c :: _ => c_idx c = t end.
+
+Lemma insert_children_props gap hs co top ah :
+  wf_items hs -> 1 <= top < 18446744073709551616 ->
+  let '(t, o, cs) := insert_children hs co top ah in
+  geom_ok gap top hs cs /\ hd_idx_is t cs /\ Forall (fun c => c_col c = co) cs /\
+  0 <= t < top /\
+  (cs = [] -> zlen hs <= top - 1) /\
+  (forall l, last_opt cs = Some l -> c_idx l = top - 1).
+Proof.
+  intros (Hnn & Hsum & Hlen) Ht. unfold insert_children.
+  assert (Hu : u64 (top - 1) = top - 1) by (apply u64_small; lia). rewrite Hu.
+  pose proof (ins_loop_props gap top hs co (items_back hs (top - 1)) (top - 1) ah [] eq_refl) as P.
+  assert (Hbn : Forall (fun h => 0 <= h) (items_back hs (top - 1))).
+  { unfold items_back. destruct ((top - 1 <? 0) || (zlen hs <=? top - 1)); [constructor|].
+    apply Forall_rev. apply Forall_firstn. exact Hnn. }
+  specialize (P Hbn ltac:(lia) ltac:(lia) (geom_nil _ _ _) I (Forall_nil _)).
+  destruct (ins_loop (items_back hs (top - 1)) (top - 1) ah co []) as [[t ah'] cs].
+  destruct P as (P1 & P2 & P3 & P4 & _ & P6 & P7 & P8).
+  assert (Hcol : Forall (fun c => c_col c = co) cs).
+  { eapply Forall_impl; [|exact P3]. intros c [Hc _]; exact Hc. }
+  assert (Hidx : Forall (fun c => c_idx c < top) cs).
+  { eapply Forall_impl; [|exact P3]. intros c [_ Hc]; exact Hc. }
+  assert (Hnil : cs = [] -> zlen hs <= top - 1).
+  { intros ->. destruct (items_back hs (top - 1)) as [|hb0 hbt] eqn:E.
+    - apply items_back_nil in E; lia.
+    - destruct P6 as (l & Hl & _); [reflexivity|discriminate|discriminate]. }
+  assert (Hlast : forall l, last_opt cs = Some l -> c_idx l = top - 1).
+  { intros l Hl. destruct (items_back hs (top - 1)) as [|hb0 hbt] eqn:E.
+    - rewrite (P7 eq_refl) in Hl. discriminate.
+    - destruct P6 as (l' & Hl' & Hi); [reflexivity|discriminate|]. congruence. }
+  destruct ((t =? 0) && (0 <? ah')) eqn:E.
+  - pose proof (heights_nonneg hs cs Hnn (proj1 P1)) as Hh.
+    pose proof (sumz_items_back hs (top - 1) Hnn) as Hsb. unfold sumh in P8 at 2. simpl in P8.
+    destruct (rerow_props gap top hs cs 0 P1 Hh Hidx ltac:(lia) ltac:(lia)) as (R1 & R2 & R3 & R4).
+    split; [exact R1|]. split.
+    { destruct cs as [|c cs]; [exact I|]. simpl in R4 |- *. simpl in P2. lia. }
+    split; [exact (Forall_by_map c_col (fun x => x = co) _ _ R3 Hcol)|].
+    split; [lia|]. split.
+    { intros Hr. apply Hnil. destruct cs; [reflexivity|discriminate]. }
+    intros l Hl. assert (Hm : option_map c_idx (last_opt (rerow cs 0)) = option_map c_idx (last_opt cs))
+      by (rewrite <- !last_opt_map; f_equal; exact R2).
+    rewrite Hl in Hm. simpl in Hm. destruct (last_opt cs) as [l0|] eqn:El; [|discriminate].
+    simpl in Hm. injection Hm as ->. apply Hlast. reflexivity.
+  - split; [exact P1|]. split.
+    { destruct cs as [|c cs]; [exact I|]. simpl in P2 |- *. tauto. }
+    split; [exact Hcol|]. split; [lia|]. split; [exact Hnil|exact Hlast].
+Qed.
+
+Lemma geom_app gap top0 hs a b :
+  geom_ok gap top0 hs a -> geom_ok gap top0 hs b ->
+  (forall l, last_opt a = Some l ->
+     hd_is (c_idx l + 1) (c_row l + c_h l + (if c_idx l <? top0 then 0 else gap)) b) ->
+  geom_ok gap top0 hs (a ++ b).
+Proof.
+  intros (A1 & A2 & A3) (B1 & B2 & B3) J. unfold geom_ok, heights_ok, consecutive, spacing in *.
+  rewrite forallb_app, !adj_app, A1, A2, A3, B1, B2, B3. simpl.
+  destruct (last_opt a) as [l|]; [|auto]. specialize (J l eq_refl).
+  destruct b as [|c b]; [auto|]. simpl in J. destruct J as [J1 J2].
+  repeat split; lia.
+Qed.
+
+Definition wf_state (st : dstate) : Prop :=
+  0 <= d_cur st < 18446744073709551616 /\ 0 <= d_top st < 18446744073709551616.
+
+Lemma draw_layout_props gap dc hs H st :
+  wf_items hs -> wf_state st ->
+  let '(top2, off2, cs) := draw_layout gap dc hs H st in
+  geom_ok gap (d_top st) hs cs /\ hd_idx_is top2 cs /\ Forall (fun c => c_col c = coloff dc) cs /\
+  0 <= top2 <= d_top st.
+Proof.
+  intros Hw (Hcur & Htop). pose proof Hw as (Hnn & Hsum & Hlen). unfold draw_layout.
+  set (ah0 := - (d_off st + d_pend st)).
+  destruct ((0 <? ah0) && (d_top st =? 0)) eqn:E0.
+  - (* at the top already: ah = 0 *)
+    change (0 <? 0) with false. cbv iota. cbn [app].
+    pose proof (down_loop_props gap (d_top st) hs (d_wants st) (d_cur st) H (coloff dc) Hlen
+                  (items_from hs (d_top st)) (d_top st) 0 eq_refl ltac:(lia) ltac:(lia)) as P.
+    cbv zeta in P. destruct P as (P1 & P2 & P3 & _).
+    split; [exact P1|]. split; [|split; [exact P3|lia]].
+    destruct (down_loop _ _ _ _ _ _ _ _) as [|c cs]; [exact I|]. simpl in P2 |- *. tauto.
+  - destruct (0 <? ah0) eqn:E1.
+    + (* upward insertion *)
+      assert (Ht1 : 1 <= d_top st < 18446744073709551616) by lia.
+      pose proof (insert_children_props gap hs (coloff dc) (d_top st) ah0 Hw Ht1) as P.
+      destruct (insert_children hs (coloff dc) (d_top st) ah0) as [[t o] ins].
+      destruct P as (P1 & P2 & P3 & P4 & P5 & P6).
+      destruct (last_opt ins) as [l|] eqn:El.
+      * pose proof (down_loop_props gap (d_top st) hs (d_wants st) (d_cur st) H (coloff dc) Hlen
+                      (items_from hs (d_top st)) (d_top st) (c_row l + c_h l) eq_refl ltac:(lia) ltac:(lia)) as Q.
+        cbv zeta in Q. destruct Q as (Q1 & Q2 & Q3 & _).
+        split; [|split; [|split; [apply Forall_app; auto|lia]]].
+        -- apply geom_app; auto. intros l' Hl'. assert (l' = l) by congruence. subst l'.
+           rewrite (P6 l eq_refl). destruct (d_top st - 1 <? d_top st) eqn:E2; [|lia].
+           replace (d_top st - 1 + 1) with (d_top st) by lia.
+           replace (c_row l + c_h l + 0) with (c_row l + c_h l) by lia. exact Q2.
+        -- destruct ins as [|c ins]; [discriminate|]. exact P2.
+      * apply last_opt_none in El. subst ins. specialize (P5 eq_refl).
+        assert (Hf : items_from hs (d_top st) = []).
+        { unfold items_from. destruct ((d_top st <? 0) || (zlen hs <=? d_top st)) eqn:E2; [reflexivity|lia]. }
+        rewrite Hf. simpl. split; [apply geom_nil|]. split; [exact I|]. split; [constructor|lia].
+    + cbn [app].
+      pose proof (down_loop_props gap (d_top st) hs (d_wants st) (d_cur st) H (coloff dc) Hlen
+                    (items_from hs (d_top st)) (d_top st) ah0 eq_refl ltac:(lia) ltac:(lia)) as P.
+      cbv zeta in P. destruct P as (P1 & P2 & P3 & _).
+      split; [exact P1|]. split; [|split; [exact P3|lia]].
+      destruct (down_loop _ _ _ _ _ _ _ _) as [|c cs]; [exact I|]. simpl in P2 |- *. tauto.
+Qed.
+
+Definition no_insertion (st : dstate) : Prop := d_off st + d_pend st >= 0 \/ d_top st = 0.
+
+Lemma draw_layout_noins gap dc hs H st :
+  no_insertion st -> fst (fst (draw_layout gap dc hs H st)) = d_top st.
+Proof.
+  intros Hn. unfold draw_layout.
+  destruct ((0 <? - (d_off st + d_pend st)) && (d_top st =? 0)) eqn:E0.
+  - reflexivity.
+  - destruct (0 <? - (d_off st + d_pend st)) eqn:E1; [|reflexivity]. destruct Hn; lia.
+Qed.
+
+(* ---------------------------------------------------------------------------------- *)
+(* Dynamic: the cursor gutter, cursor following and the anchor                         *)
+(* ---------------------------------------------------------------------------------- *)
+
+Lemma zget_of_nat {A} (l : list A) n : zget l (Z.of_nat n) = nth_error l n.
+Proof. unfold zget. destruct (Z.of_nat n <? 0) eqn:E; [lia|]. now rewrite Nat2Z.id. Qed.
+
+Lemma In_zget {A} (l : list A) x : In x l -> exists k, zget l k = Some x.
+Proof. intros H. apply In_nth_error in H as [n Hn]. exists (Z.of_nat n). now rewrite zget_of_nat. Qed.
+
+Lemma forallb_upd_nat {A} (f : A -> bool) l n c c' :
+  nth_error l n = Some c -> f c' = f c -> forallb f (upd_nat l n c') = forallb f l.
+Proof.
+  revert n; induction l as [|a t IH]; intros [|n] Hn Hf; simpl in *; try discriminate.
+  - injection Hn as ->. now rewrite Hf.
+  - now rewrite (IH n Hn Hf).
+Qed.
+
+Lemma forallb_map' {A B} (f : B -> bool) (g : A -> B) l : forallb f (map g l) = forallb (fun x => f (g x)) l.
+Proof. induction l as [|a t IH]; simpl; [reflexivity|]. now rewrite IH. Qed.
+
+Definition same_geom (a b : child) : Prop := c_idx a = c_idx b /\ c_row a = c_row b /\ c_h a = c_h b.
+
+Lemma geom_upd gap top0 hs cs k c cs1 :
+  zget cs k = Some c -> zupd cs k (mkC (c_idx c) (c_row c) 0 (c_h c)) = Some cs1 ->
+  (geom_ok gap top0 hs cs -> geom_ok gap top0 hs cs1) /\ map c_idx cs1 = map c_idx cs.
+Proof.
+  intros Hg Hu. unfold zupd in Hu. destruct ((k <? 0) || (zlen cs <=? k)) eqn:E; [discriminate|].
+  injection Hu as <-. unfold zget in Hg. destruct (k <? 0); [discriminate|].
+  set (c' := mkC (c_idx c) (c_row c) 0 (c_h c)).
+  assert (HE : same_geom c c') by (repeat split).
+  split.
+  - intros (G1 & G2 & G3). unfold geom_ok, heights_ok, consecutive, spacing in *.
+    rewrite (forallb_upd_nat _ _ _ c c' Hg) by reflexivity.
+    rewrite (adj_upd_nat _ same_geom cs _ c c'), (adj_upd_nat _ same_geom cs _ c c'); auto;
+      intros a a' b (Ha & Hb & Hc); rewrite ?Ha, ?Hb, ?Hc; reflexivity.
+  - clear E. revert Hg. generalize (Z.to_nat k). induction cs as [|a t IH]; intros [|n] Hn; simpl in *; try discriminate.
+    + injection Hn as ->. reflexivity.
+    + f_equal. apply IH. exact Hn.
+Qed.
+
+Lemma geom_shift gap top0 hs adj cs : geom_ok gap top0 hs cs -> geom_ok gap top0 hs (shift adj cs).
+Proof.
+  intros (G1 & G2 & G3). unfold geom_ok, heights_ok, consecutive, spacing, shift in *.
+  rewrite forallb_map'. simpl. split; [exact G1|]. split.
+  - erewrite adj_map; [exact G2|]. reflexivity.
+  - erewrite adj_map; [exact G3|]. intros a b. simpl. destruct (c_idx a <? top0); lia.
+Qed.
+
+Lemma hd_idx_by_map t cs cs' : map c_idx cs' = map c_idx cs -> hd_idx_is t cs -> hd_idx_is t cs'.
+Proof. destruct cs, cs'; simpl; try discriminate; auto. intros E; injection E as E _. congruence. Qed.
+
+Lemma consecutive_nth cs : forall t k c,
+  consecutive cs = true -> hd_idx_is t cs -> zget cs k = Some c -> c_idx c = t + k.
+Proof.
+  induction cs as [|a cs IH]; intros t k c Hc Hh Hg; [destruct (zget_some_range _ _ _ Hg); simpl in *; unfold zlen in *; simpl in *; lia|].
+  pose proof (zget_some_range _ _ _ Hg) as Hr. simpl in Hh.
+  destruct (Z.eq_dec k 0) as [->|Hk].
+  - rewrite zget_cons_0 in Hg. injection Hg as <-. lia.
+  - rewrite zget_cons_S in Hg by lia.
+    assert (Hc' : consecutive cs = true) by (eapply adj_tail; exact Hc).
+    rewrite (IH (t + 1) (k - 1) c Hc'); [lia| |exact Hg].
+    destruct cs as [|b cs]; [exact I|]. simpl. unfold consecutive in Hc. rewrite adj_cons2 in Hc. lia.
+Qed.
+
+Lemma consecutive_by_map cs cs' : map c_idx cs' = map c_idx cs -> consecutive cs = consecutive cs'.
+Proof.
+  intros E. unfold consecutive.
+  rewrite <- (adj_map (fun a b => b =? a + 1) (fun a b : child => c_idx b =? c_idx a + 1) c_idx cs) by reflexivity.
+  rewrite <- (adj_map (fun a b => b =? a + 1) (fun a b : child => c_idx b =? c_idx a + 1) c_idx cs') by reflexivity.
+  now rewrite E.
+Qed.
+
+Lemma draw_cursor_cols dc cur top2 cs cs1 :
+  0 <= cur < 18446744073709551616 -> 0 <= top2 ->
+  consecutive cs = true -> hd_idx_is top2 cs -> Forall (fun c => c_col c = coloff dc) cs ->
+  draw_cursor dc cur top2 cs = Some cs1 -> cols_ok dc cur cs1 = true.
+Proof.
+  intros Hcur Ht Hc Hh Hcol. unfold draw_cursor. rewrite Forall_forall in Hcol.
+  destruct (dc && cursor_hit cur top2 cs) eqn:E.
+  - destruct dc; [|discriminate]. simpl in E. unfold cursor_hit in E.
+    assert (Hu : u64 (cur - top2) = cur - top2) by (apply u64_small; lia). rewrite Hu in *.
+    destruct (zget cs (cur - top2)) as [c|] eqn:Eg; [|discriminate]. intros Hu1.
+    unfold cols_ok. apply forallb_forall. intros x Hx. apply In_zget in Hx as [k Hk].
+    destruct (Z.eq_dec (cur - top2) k) as [<-|Hne].
+    + rewrite (zget_zupd_same _ _ _ _ Hu1) in Hk. injection Hk as <-. simpl.
+      rewrite (consecutive_nth cs top2 _ c Hc Hh Eg). replace (top2 + (cur - top2) =? cur) with true by lia. reflexivity.
+    + rewrite (zget_zupd_other _ _ _ _ _ Hu1 Hne) in Hk.
+      rewrite (consecutive_nth cs top2 _ x Hc Hh Hk). replace (top2 + k =? cur) with false by lia. simpl.
+      rewrite (Hcol x (zget_In _ _ _ Hk)). simpl. lia.
+  - intros Hs; injection Hs as <-. unfold cols_ok. apply forallb_forall. intros x Hx.
+    rewrite (Hcol x Hx). destruct dc; simpl; [|lia]. simpl in E. unfold cursor_hit in E.
+    apply In_zget in Hx as [k Hk]. rewrite (consecutive_nth cs top2 _ x Hc Hh Hk).
+    pose proof (zget_some_range _ _ _ Hk) as Hr.
+    destruct (top2 <=? cur) eqn:E1; simpl in E.
+    + assert (Hu : u64 (cur - top2) = cur - top2) by (apply u64_small; lia). rewrite Hu in E.
+      replace (top2 + k =? cur) with false by lia. lia.
+    + replace (top2 + k =? cur) with false by lia. lia.
+Qed.
+
+Lemma cols_ok_shift dc cur adj cs : cols_ok dc cur (shift adj cs) = cols_ok dc cur cs.
+Proof. unfold cols_ok, shift. rewrite forallb_map'. reflexivity. Qed.
+
+Lemma reset_loop_nocover cs : forall k top off,
+  (forall c, In c cs -> covers0 c = false) -> reset_loop cs k top off = (top, off).
+Proof.
+  induction cs as [|a cs IH]; intros k top off Hn; [reflexivity|].
+  cbn [reset_loop]. rewrite (Hn a (or_introl eq_refl)). apply IH. intros c Hc; apply Hn; right; exact Hc.
+Qed.
+
+Lemma no_overlap_after cs : forall a,
+  no_overlap (a :: cs) = true -> Forall (fun c => 0 <= c_h c) (a :: cs) ->
+  forall x, In x cs -> c_row a + c_h a <= c_row x.
+Proof.
+  induction cs as [|b cs IH]; intros a Hn Hh x Hx; [destruct Hx|].
+  unfold no_overlap in Hn. rewrite adj_cons2 in Hn. apply andb_prop in Hn as [H1 H2].
+  pose proof (Forall_inv_tail Hh) as Hh'. pose proof (Forall_inv Hh') as Hb. cbv beta in Hb.
+  destruct Hx as [<-|Hx]; [lia|]. specialize (IH b H2 Hh' x Hx). lia.
+Qed.
+
+Lemma reset_loop_anchor cs : forall k top off t,
+  consecutive cs = true -> no_overlap cs = true -> Forall (fun c => 0 <= c_h c) cs ->
+  Forall (fun c => 0 <= c_idx c < 18446744073709551616) cs ->
+  hd_idx_is t cs -> t = top + k ->
+  let '(top3, off3) := reset_loop cs k top off in
+  forallb (fun c => negb (covers0 c) || ((top3 =? c_idx c) && (off3 =? - c_row c))) cs = true /\
+  (top3 = top \/ 0 <= top3 < 18446744073709551616).
+Proof.
+  induction cs as [|a cs IH]; intros k top off t Hc Hn Hh Hi Ht Htk; [simpl; auto|].
+  cbn [reset_loop]. simpl in Ht.
+  pose proof (Forall_inv Hi) as Hia. cbv beta in Hia.
+  destruct (covers0 a) eqn:Ea.
+  - assert (Hno : forall c, In c cs -> covers0 c = false).
+    { intros c Hin. pose proof (no_overlap_after cs a Hn Hh c Hin). unfold covers0 in *. lia. }
+    rewrite (reset_loop_nocover cs _ _ _ Hno).
+    assert (Hu : u64 (top + k) = c_idx a) by (rewrite u64_small; lia).
+    split; [|right; rewrite Hu; exact Hia].
+    cbn [forallb]. rewrite Ea, Hu. simpl. replace (c_idx a =? c_idx a) with true by lia.
+    replace (- c_row a =? - c_row a) with true by lia. simpl.
+    apply forallb_forall. intros c Hin. rewrite (Hno c Hin). reflexivity.
+  - specialize (IH (k + 1) top off (t + 1) (adj_tail _ _ _ Hc) (adj_tail _ _ _ Hn)
+                   (Forall_inv_tail Hh) (Forall_inv_tail Hi)).
+    assert (Hh1 : hd_idx_is (t + 1) cs).
+    { destruct cs as [|b cs]; [exact I|]. simpl. unfold consecutive in Hc. rewrite adj_cons2 in Hc. lia. }
+    specialize (IH Hh1 ltac:(lia)).
+    destruct (reset_loop cs (k + 1) top off) as [top3 off3]. destruct IH as [I1 I2].
+    split; [|exact I2]. cbn [forallb]. rewrite Ea. simpl. exact I1.
+Qed.
+
+Lemma spacing_no_overlap gap top0 cs :
+  0 <= gap -> spacing gap top0 cs = true -> no_overlap cs = true.
+Proof.
+  intros Hg. unfold spacing, no_overlap. apply adj_imp. intros a b. destruct (c_idx a <? top0); lia.
+Qed.
+
+Lemma heights_idx_range hs cs :
+  heights_ok hs cs = true -> Forall (fun c => 0 <= c_idx c < zlen hs) cs.
+Proof.
+  intros H. unfold heights_ok in H. rewrite forallb_forall in H. apply Forall_forall.
+  intros c Hc. specialize (H c Hc). destruct (builder hs (c_idx c)) as [x|] eqn:E; simpl in H; [|discriminate].
+  eapply builder_some; exact E.
+Qed.
+
+Lemma draw_cursor_shape gap top0 hs dc cur top2 cs cs1 :
+  draw_cursor dc cur top2 cs = Some cs1 ->
+  (geom_ok gap top0 hs cs -> geom_ok gap top0 hs cs1) /\ map c_idx cs1 = map c_idx cs.
+Proof.
+  unfold draw_cursor. destruct (dc && cursor_hit cur top2 cs).
+  - destruct (zget cs (u64 (cur - top2))) as [c|] eqn:Eg; [|discriminate]. intros Hu.
+    exact (geom_upd gap top0 hs cs _ c cs1 Eg Hu).
+  - intros Hs; injection Hs as <-. auto.
+Qed.
+
+Lemma shift_idx adj cs : map c_idx (shift adj cs) = map c_idx cs.
+Proof. unfold shift. rewrite map_map. reflexivity. Qed.
+
+Lemma draw_follow_shape wants cur top2 H cs1 cs2 w2 :
+  draw_follow wants cur top2 H cs1 = Some (cs2, w2) -> cs2 = cs1 \/ exists adj, cs2 = shift adj cs1.
+Proof.
+  unfold draw_follow. destruct (wants && cursor_hit cur top2 cs1).
+  - destruct (zget cs1 (u64 (cur - top2))) as [c|]; [|discriminate].
+    destruct (H <? c_row c + c_h c); intros Hs; injection Hs as <- _; eauto.
+  - intros Hs; injection Hs as <- _; auto.
+Qed.
+
+Lemma reset_loop_range cs : forall k top off,
+  0 <= top < 18446744073709551616 -> 0 <= fst (reset_loop cs k top off) < 18446744073709551616.
+Proof.
+  induction cs as [|a cs IH]; intros k top off Ht; [exact Ht|].
+  cbn [reset_loop]. destruct (covers0 a); apply IH; [apply u64_range|exact Ht].
+Qed.
+
+Theorem draw_props gap dc hs W H st cs st' :
+  wf_items hs -> wf_state st -> draw gap dc hs W H st = Ok (cs, st') ->
+  geom_ok gap (d_top st) hs cs /\ cols_ok dc (d_cur st) cs = true /\
+  d_pend st' = 0 /\ d_cur st' = d_cur st /\ wf_state st' /\
+  (0 <= gap -> anchor_ok st' cs = true) /\
+  (exists top2, hd_idx_is top2 cs /\ 0 <= top2 <= d_top st /\ (no_insertion st -> top2 = d_top st)).
+Proof.
+  intros Hw Hs. pose proof Hw as (Hnn & Hsum & Hlen). pose proof Hs as (Hcur & Htop). unfold draw.
+  destruct ((H =? 65535) || (W =? 65535)); [discriminate|].
+  pose proof (draw_layout_props gap dc hs H st Hw Hs) as L.
+  pose proof (draw_layout_noins gap dc hs H st) as Lni.
+  destruct (draw_layout gap dc hs H st) as [[top2 off2] cs0]. destruct L as (L1 & L2 & L3 & L4).
+  simpl in Lni.
+  destruct (draw_cursor dc (d_cur st) top2 cs0) as [cs1|] eqn:E1; [|discriminate].
+  destruct (draw_follow (d_wants st) (d_cur st) top2 H cs1) as [[cs2 w2]|] eqn:E2; [|discriminate].
+  pose proof (draw_cursor_shape gap (d_top st) hs _ _ _ _ _ E1) as (C1 & C2).
+  pose proof (draw_cursor_cols dc (d_cur st) top2 cs0 cs1 Hcur ltac:(lia) (proj1 (proj2 L1)) L2 L3 E1) as C3.
+  specialize (C1 L1).
+  assert (G2 : geom_ok gap (d_top st) hs cs2 /\ cols_ok dc (d_cur st) cs2 = true /\ map c_idx cs2 = map c_idx cs0).
+  { destruct (draw_follow_shape _ _ _ _ _ _ _ E2) as [->|[adj ->]].
+    - auto.
+    - split; [apply geom_shift; exact C1|]. split; [rewrite cols_ok_shift; exact C3|].
+      rewrite shift_idx. exact C2. }
+  destruct G2 as (G2 & G3 & G4).
+  assert (Hhd : hd_idx_is top2 cs2) by (eapply hd_idx_by_map; [exact G4|exact L2]).
+  pose proof (heights_nonneg hs cs2 Hnn (proj1 G2)) as Hh.
+  assert (Hir : Forall (fun c => 0 <= c_idx c < 18446744073709551616) cs2).
+  { eapply Forall_impl; [|exact (heights_idx_range hs cs2 (proj1 G2))]. cbv beta. intros c Hc. lia. }
+  destruct (reset_loop cs2 0 top2 off2) as [top3 off3] eqn:E3.
+  intros Hok. injection Hok as <- <-. simpl.
+  split; [exact G2|]. split; [exact G3|]. split; [reflexivity|]. split; [reflexivity|].
+  pose proof (reset_loop_range cs2 0 top2 off2 ltac:(lia)) as Hr3. rewrite E3 in Hr3. simpl in Hr3.
+  split; [split; simpl; lia|]. split; [|exists top2; auto].
+  intros Hg.
+  pose proof (reset_loop_anchor cs2 0 top2 off2 top2 (proj1 (proj2 G2))
+                (spacing_no_overlap _ _ _ Hg (proj2 (proj2 G2))) Hh Hir Hhd ltac:(lia)) as A.
+  rewrite E3 in A. exact (proj1 A).
+Qed.
+
+(* ---------------------------------------------------------------------------------- *)
+(* Dynamic: the cursor is visible after a selection change and a draw                  *)
+(* ---------------------------------------------------------------------------------- *)
+
+Lemma down_loop_cursor gap hs cur H co :
+  Forall (fun h => 0 <= h) hs -> 0 <= gap -> cur < zlen hs -> zlen hs < 18446744073709551616 ->
+  forall suffix i ah wants, suffix = items_from hs i -> 0 <= i <= cur -> (i < cur -> wants = true) ->
+  exists c, zget (down_loop suffix i ah wants cur H gap co) (cur - i) = Some c /\
+            c_idx c = cur /\ builder hs cur = Some (c_h c) /\
+            (i = cur -> c_row c = ah) /\
+            (forall h0, i < cur -> builder hs i = Some h0 -> ah + h0 <= c_row c).
+Proof.
+  intros Hnn Hg Hcur Hlen. induction suffix as [|h rest IH]; intros i ah wants Hs Hi Hw.
+  - symmetry in Hs. apply items_from_nil in Hs; lia.
+  - symmetry in Hs. apply items_from_cons in Hs as (Hr & Hb & Hrest).
+    assert (Hu : u64 (i + 1) = i + 1) by (apply u64_small; lia).
+    cbn [down_loop]. rewrite Hu. cbv zeta.
+    destruct (Z.eq_dec i cur) as [->|Hne].
+    + exists (mkC cur ah co h). replace (cur - cur) with 0 by lia.
+      assert (Hz : forall l, zget (mkC cur ah co h :: l) 0 = Some (mkC cur ah co h)) by reflexivity.
+      split.
+      { destruct (wants && (cur + 1 <=? cur)); [apply Hz|]. destruct (H <=? ah + h + gap); apply Hz. }
+      simpl. split; [reflexivity|]. split; [exact Hb|]. split; [reflexivity|]. intros; lia.
+    + rewrite (Hw ltac:(lia)). replace (i + 1 <=? cur) with true by lia. simpl.
+      destruct (IH (i + 1) (ah + h + gap) true Hrest ltac:(lia) ltac:(reflexivity)) as (c & Hc1 & Hc2 & Hc3 & Hc4 & Hc5).
+      exists c. rewrite zget_cons_S by lia. replace (cur - i - 1) with (cur - (i + 1)) by lia.
+      split; [exact Hc1|]. split; [exact Hc2|]. split; [exact Hc3|]. split; [lia|].
+      intros h0 _ Hb0. assert (h0 = h) by congruence. subst h0.
+      destruct (Z.eq_dec (i + 1) cur) as [He|Hn1].
+      * specialize (Hc4 He). lia.
+      * destruct (builder hs (i + 1)) as [h1|] eqn:Eb.
+        -- specialize (Hc5 h1 ltac:(lia) eq_refl).
+           assert (0 <= h1). { unfold builder in Eb. destruct (zlen hs <=? i + 1); [discriminate|].
+                               apply zget_In in Eb. rewrite Forall_forall in Hnn. auto. }
+           lia.
+        -- apply builder_none in Eb; lia.
+Qed.
+
+Definition after_select (st : dstate) : Prop :=
+  (d_top st < d_cur st /\ d_wants st = true) \/ (d_top st = d_cur st /\ d_off st = 0).
+
+Lemma visible_ok_bottom h H : 0 <= h -> 0 < H -> visible_ok (H - h) h H = true.
+Proof. intros. unfold visible_ok. destruct (h <=? H) eqn:E; lia. Qed.
+
+Lemma visible_ok_inside r h H : 0 <= r -> r + h <= H -> 0 <= h -> visible_ok r h H = true.
+Proof. intros. unfold visible_ok. destruct (h <=? H) eqn:E; lia. Qed.
+
+Theorem draw_cursor_visible gap dc hs W H st cs st' :
+  wf_items hs -> wf_state st -> 0 <= gap -> 0 < H ->
+  d_pend st = 0 -> ioff hs st = true -> d_cur st < zlen hs -> after_select st ->
+  draw gap dc hs W H st = Ok (cs, st') -> cursor_visible H (d_cur st) cs = true.
+Proof.
+  intros (Hnn & Hsum & Hlen) (Hcur & Htop) Hg HH Hp Hio Hcn Has. unfold draw.
+  destruct ((H =? 65535) || (W =? 65535)); [discriminate|].
+  unfold ioff in Hio. apply andb_prop in Hio as [Ho1 Ho2].
+  unfold draw_layout. rewrite Hp.
+  replace ((0 <? - (d_off st + 0)) && (d_top st =? 0)) with false by lia.
+  replace (0 <? - (d_off st + 0)) with false by lia. cbn [app].
+  assert (Htc : d_top st <= d_cur st) by (destruct Has; lia).
+  destruct (down_loop_cursor gap hs (d_cur st) H (coloff dc) Hnn Hg Hcn Hlen
+              (items_from hs (d_top st)) (d_top st) (- (d_off st + 0)) (d_wants st) eq_refl ltac:(lia))
+    as (c & Hc1 & Hc2 & Hc3 & Hc4 & Hc5).
+  { intros Hlt. destruct Has as [[_ Hw]|[He _]]; [exact Hw|lia]. }
+  set (cs0 := down_loop (items_from hs (d_top st)) (d_top st) (- (d_off st + 0)) (d_wants st) (d_cur st) H gap (coloff dc)) in *.
+  assert (Hu : u64 (d_cur st - d_top st) = d_cur st - d_top st) by (apply u64_small; lia).
+  assert (Hch : 0 <= c_h c). { unfold builder in Hc3. destruct (zlen hs <=? d_cur st); [discriminate|].
+                               apply zget_In in Hc3. rewrite Forall_forall in Hnn. auto. }
+  (* row of the cursored child before following *)
+  assert (Hrow : 0 <= c_row c /\ (d_wants st = false -> c_row c = 0)).
+  { destruct Has as [[Hlt Hw]|[He Ho]].
+    - split; [|congruence]. destruct (builder hs (d_top st)) as [ht|] eqn:Eb.
+      + specialize (Hc5 ht Hlt eq_refl).
+        assert (0 <= ht). { unfold builder in Eb. destruct (zlen hs <=? d_top st); [discriminate|].
+                            apply zget_In in Eb. rewrite Forall_forall in Hnn. auto. }
+        lia.
+      + apply builder_none in Eb; lia.
+    - specialize (Hc4 He). lia. }
+  (* the gutter keeps the geometry of the cursored child *)
+  destruct (draw_cursor dc (d_cur st) (d_top st) cs0) as [cs1|] eqn:E1; [|discriminate].
+  assert (Hc1' : exists c1, zget cs1 (d_cur st - d_top st) = Some c1 /\ same_geom c c1).
+  { unfold draw_cursor in E1. rewrite Hu, Hc1 in E1. destruct (dc && cursor_hit (d_cur st) (d_top st) cs0).
+    - exists (mkC (c_idx c) (c_row c) 0 (c_h c)). split; [eapply zget_zupd_same; exact E1|repeat split].
+    - injection E1 as <-. exists c. split; [exact Hc1|repeat split]. }
+  destruct Hc1' as (c1 & Hg1 & Hi1 & Hr1 & Hh1).
+  pose proof (zget_some_range _ _ _ Hg1) as Hrg.
+  assert (Hhit : cursor_hit (d_cur st) (d_top st) cs1 = true) by (unfold cursor_hit; rewrite Hu; lia).
+  unfold draw_follow. rewrite Hhit, Hu, Hg1.
+  destruct (d_wants st) eqn:Ew; simpl.
+  - destruct (H <? c_row c1 + c_h c1) eqn:Eb.
+    + destruct (reset_loop _ _ _ _). intros Hok; injection Hok as <- _.
+      unfold cursor_visible. apply existsb_exists.
+      exists (mkC (c_idx c1) (c_row c1 + (H - (c_row c1 + c_h c1))) (c_col c1) (c_h c1)). split.
+      * unfold shift. apply in_map_iff. exists c1. split; [reflexivity|eapply zget_In; exact Hg1].
+      * simpl. replace (c_row c1 + (H - (c_row c1 + c_h c1))) with (H - c_h c1) by lia.
+        rewrite visible_ok_bottom by lia. lia.
+    + destruct (reset_loop _ _ _ _). intros Hok; injection Hok as <- _.
+      unfold cursor_visible. apply existsb_exists. exists c1. split; [eapply zget_In; exact Hg1|].
+      rewrite visible_ok_inside by lia. lia.
+  - destruct (reset_loop _ _ _ _). intros Hok; injection Hok as <- _.
+    unfold cursor_visible. apply existsb_exists. exists c1. split; [eapply zget_In; exact Hg1|].
+    destruct Hrow as [_ Hr0]. specialize (Hr0 eq_refl).
+    assert (Hv : visible_ok (c_row c1) (c_h c1) H = true).
+    { unfold visible_ok. destruct (c_h c1 <=? H) eqn:E; lia. }
+    rewrite Hv. lia.
+Qed.
+
+(* ---------------------------------------------------------------------------------- *)
+(* Dynamic: operation sequences                                                        *)
+(* ---------------------------------------------------------------------------------- *)
+
+Definition wf_op (op : dop) : Prop :=
+  match op with
+  | DSetCursor c => 0 <= c < 18446744073709551616
+  | DSetItems hs' => wf_items hs'
+  | DDraw w h => w <> 65535 /\ h <> 65535
+  | _ => True
+  end.
+
+Lemma state_tuple_roundtrip st : state_of_tuple (tuple_of_state st) = st.
+Proof. destruct st; reflexivity. Qed.
+
+Lemma child_tuple_roundtrip cs : map child_of_tuple (map tuple_of_child cs) = cs.
+Proof. induction cs as [|c cs IH]; [reflexivity|]. simpl. rewrite IH. destruct c; reflexivity. Qed.
+
+Lemma ensure_scroll_after st : after_select (ensure_scroll st).
+Proof. unfold ensure_scroll, after_select. destruct (d_top st <? d_cur st) eqn:E; simpl; [left|right]; split; auto; lia. Qed.
+
+Lemma ensure_scroll_cur st : d_cur (ensure_scroll st) = d_cur st.
+Proof. unfold ensure_scroll. destruct (d_top st <? d_cur st); reflexivity. Qed.
+
+Lemma ensure_scroll_wf st : wf_state st -> wf_state (ensure_scroll st).
+Proof. unfold ensure_scroll, wf_state. destruct (d_top st <? d_cur st); simpl; lia. Qed.
+
+(* index_valid for Dynamic: next/prev/wheel/pending-scroll/draw keep a valid cursor valid *)
+Lemma next_item_valid hs st :
+  valid_index (d_cur st) (zlen hs) = true -> valid_index (d_cur (next_item hs st)) (zlen hs) = true.
+Proof.
+  unfold next_item. destruct (builder hs (u64 (d_cur st + 1))) eqn:E; [|auto].
+  intros _. rewrite ensure_scroll_cur. simpl. apply builder_some in E. unfold valid_index. lia.
+Qed.
+
+Lemma prev_item_valid hs st :
+  valid_index (d_cur st) (zlen hs) = true -> valid_index (d_cur (prev_item hs st)) (zlen hs) = true.
+Proof.
+  unfold prev_item. destruct (d_cur st =? 0); [auto|].
+  destruct (builder hs (u64 (d_cur st - 1))) eqn:E; [|auto].
+  intros _. rewrite ensure_scroll_cur. simpl. apply builder_some in E. unfold valid_index. lia.
+Qed.
+
+Lemma dstep_wf gap dc hs st op hs' st' cs :
+  wf_items hs -> wf_state st -> wf_op op -> dstep gap dc hs st op = Ok (hs', st', cs) ->
+  wf_items hs' /\ wf_state st'.
+Proof.
+  intros Hw Hs Ho. destruct op; simpl in *.
+  - intros E; injection E as <- <- _. split; [auto|]. unfold next_item.
+    destruct (builder hs (u64 (d_cur st + 1))); [|auto]. apply ensure_scroll_wf.
+    destruct Hs as [_ Ht]. split; simpl; [apply u64_range|exact Ht].
+  - intros E; injection E as <- <- _. split; [auto|]. unfold prev_item. destruct (d_cur st =? 0); [auto|].
+    destruct (builder hs (u64 (d_cur st - 1))); [|auto]. apply ensure_scroll_wf.
+    destruct Hs as [_ Ht]. split; simpl; [apply u64_range|exact Ht].
+  - intros E; injection E as <- <- _. split; [auto|]. apply ensure_scroll_wf. destruct Hs as [_ Ht]. split; simpl; auto.
+  - intros E; injection E as <- <- _. auto.
+  - intros E; injection E as <- <- _. split; [auto|]. unfold wheel_up. destruct ((0 <? d_off st) && (0 <? d_top st)); auto.
+  - intros E; injection E as <- <- _. auto.
+  - intros E; injection E as <- <- _. auto.
+  - destruct (draw gap dc hs w h st) as [[cs0 st0]|] eqn:E; [|discriminate].
+    intros E'; injection E' as <- <- <-. split; [auto|].
+    destruct (draw_props _ _ _ _ _ _ _ _ Hw Hs E) as (_ & _ & _ & _ & Hwf & _). exact Hwf.
+Qed.
+
+Lemma dstep_select gap dc hs st op hs' st' cs :
+  dstep gap dc hs st op = Ok (hs', st', cs) -> is_select op st st' = true -> after_select st'.
+Proof.
+  destruct op; simpl; try discriminate.
+  - intros E; injection E as _ <- _. unfold next_item. destruct (builder hs (u64 (d_cur st + 1))).
+    + intros _. apply ensure_scroll_after.
+    + intros H. lia.
+  - intros E; injection E as _ <- _. unfold prev_item. destruct (d_cur st =? 0); [intros H; lia|].
+    destruct (builder hs (u64 (d_cur st - 1))).
+    + intros _. apply ensure_scroll_after.
+    + intros H. lia.
+  - intros E; injection E as _ <- _. intros _. apply ensure_scroll_after.
+Qed.
+
+Lemma dstep_index gap dc hs st op hs' st' cs :
+  wf_items hs -> wf_state st ->
+  dstep gap dc hs st op = Ok (hs', st', cs) -> index_step_ok op hs st st' = true.
+Proof.
+  intros Hw Hs. destruct op; simpl.
+  - intros E; injection E as _ <- _. pose proof (next_item_valid hs st).
+    destruct (valid_index (d_cur st) (zlen hs)); simpl; auto.
+  - intros E; injection E as _ <- _. pose proof (prev_item_valid hs st).
+    destruct (valid_index (d_cur st) (zlen hs)); simpl; auto.
+  - intros E; injection E as _ <- _. unfold set_cursor. rewrite ensure_scroll_cur. simpl. lia.
+  - intros E; injection E as _ <- _. simpl. destruct (valid_index (d_cur st) (zlen hs)); reflexivity.
+  - intros E; injection E as _ <- _. unfold wheel_up. destruct ((0 <? d_off st) && (0 <? d_top st)); simpl;
+      destruct (valid_index (d_cur st) (zlen hs)); reflexivity.
+  - intros E; injection E as _ <- _. simpl. destruct (valid_index (d_cur st) (zlen hs)); reflexivity.
+  - intros E; injection E as _ <- _. lia.
+  - destruct (draw gap dc hs w h st) as [[cs0 st0]|] eqn:E; [|discriminate].
+    intros E'; injection E' as _ <- _.
+    destruct (draw_props _ _ _ _ _ _ _ _ Hw Hs E) as (_ & _ & _ & Hc & _). rewrite Hc.
+    destruct (valid_index (d_cur st) (zlen hs)); reflexivity.
+Qed.
+
+Lemma draw_obs_model_ok gap dc hs W H st sel cs st' :
+  wf_items hs -> wf_state st -> (sel = true -> after_select st) ->
+  draw gap dc hs W H st = Ok (cs, st') -> draw_obs_ok gap dc hs H st sel st' cs = true.
+Proof.
+  intros Hw Hs Hsel E. destruct (draw_props _ _ _ _ _ _ _ _ Hw Hs E) as ((G1 & G2 & G3) & C & P & Cu & _ & A & _).
+  unfold draw_obs_ok. rewrite G1, G2, G3, C, P, Cu. simpl.
+  replace (d_cur st =? d_cur st) with true by lia.
+  assert (Hno : (gap <? 0) || no_overlap cs = true).
+  { destruct (gap <? 0) eqn:Eg; [reflexivity|]. simpl. eapply spacing_no_overlap; [|exact G3]. lia. }
+  assert (Han : (gap <? 0) || anchor_ok st' cs = true).
+  { destruct (gap <? 0) eqn:Eg; [reflexivity|]. simpl. apply A. lia. }
+  rewrite Hno, Han. simpl.
+  destruct (sel && (d_pend st =? 0) && (0 <=? gap) && ioff hs st && (d_cur st <? zlen hs) && (0 <? H)) eqn:Ev; [|reflexivity].
+  apply andb_prop in Ev as [Ev E6]. apply andb_prop in Ev as [Ev E5]. apply andb_prop in Ev as [Ev E4].
+  apply andb_prop in Ev as [Ev E3]. apply andb_prop in Ev as [Ev E2].
+  eapply draw_cursor_visible with (W := W) (gap := gap) (hs := hs) (dc := dc) (st' := st');
+    [exact Hw|exact Hs|lia|lia|lia|exact E4|lia|apply Hsel; exact Ev|exact E].
+Qed.
+
+Theorem dyn_trace_model_ok gap dc : forall ops hs st sel,
+  wf_items hs -> wf_state st -> Forall wf_op ops -> (sel = true -> after_select st) ->
+  dyn_trace_ok gap dc hs st sel (dyn_run gap dc hs st ops) = true.
+Proof.
+  induction ops as [|op ops IH]; intros hs st sel Hw Hs Ho Hsel; [reflexivity|].
+  pose proof (Forall_inv Ho) as Ho1. pose proof (Forall_inv_tail Ho) as Ho'.
+  cbn [dyn_run].
+  assert (Hok : exists hs' st' cs, dstep gap dc hs st op = Ok (hs', st', cs)).
+  { destruct op; simpl; eauto. simpl in Ho1. destruct Ho1 as [Hw1 Hh1].
+    destruct (draw_total gap dc hs w h st Hw1 Hh1) as (cs & st' & ->). eauto. }
+  destruct Hok as (hs' & st' & cs & E). rewrite E.
+  destruct (dstep_wf _ _ _ _ _ _ _ _ Hw Hs Ho1 E) as [Hw' Hs'].
+  cbn [dyn_trace_ok]. rewrite state_tuple_roundtrip, child_tuple_roundtrip.
+  rewrite (dstep_index _ _ _ _ _ _ _ _ Hw Hs E). simpl.
+  assert (Hhs : match op with DSetItems h' => h' | _ => hs end = hs').
+  { destruct op; simpl in E; try (injection E as <- _ _; reflexivity).
+    destruct (draw gap dc hs w h st) as [[? ?]|]; [injection E as <- _ _; reflexivity|discriminate]. }
+  rewrite Hhs.
+  rewrite (IH hs' st' (is_select op st st') Hw' Hs' Ho' (dstep_select _ _ _ _ _ _ _ _ E)).
+  destruct op; try reflexivity.
+  simpl in E. destruct (draw gap dc hs w h st) as [[cs0 st0]|] eqn:Ed; [|discriminate].
+  injection E as <- <- <-. rewrite (draw_obs_model_ok _ _ _ _ _ _ _ _ _ Hw Hs Hsel Ed). reflexivity.
+Qed.
+
+(* ---------------------------------------------------------------------------------- *)
+(* Dynamic: exact-gap layout                                                           *)
+(* ---------------------------------------------------------------------------------- *)
+
+Lemma adj_imp_in {A} (R R' : A -> A -> bool) l :
+  (forall a b, In a l -> R a b = true -> R' a b = true) -> adj R l = true -> adj R' l = true.
+Proof.
+  induction l as [|a t IH]; auto. destruct t as [|b t]; auto.
+  intros HR. rewrite !adj_cons2. intros H; apply andb_prop in H as [H1 H2].
+  rewrite (HR a b (or_introl eq_refl) H1). simpl. apply IH; [|exact H2].
+  intros x y Hx. apply HR. right; exact Hx.
+Qed.
+
+Theorem draw_spacing_exact gap dc hs W H st cs st' :
+  wf_items hs -> wf_state st -> draw gap dc hs W H st = Ok (cs, st') ->
+  gap = 0 \/ no_insertion st -> spacing_exact gap cs = true.
+Proof.
+  intros Hw Hs E Hc.
+  destruct (draw_props _ _ _ _ _ _ _ _ Hw Hs E) as ((G1 & G2 & G3) & _ & _ & _ & _ & _ & (top2 & T1 & T2 & T3)).
+  unfold spacing_exact, spacing in *. destruct Hc as [->|Hni].
+  - eapply adj_imp; [|exact G3]. intros a b. cbv beta. destruct (c_idx a <? d_top st), (c_idx a <? 0); lia.
+  - specialize (T3 Hni). subst top2.
+    eapply adj_imp_in; [|exact G3]. intros a b Ha. cbv beta. apply In_zget in Ha as [k Hk].
+    pose proof (consecutive_nth cs (d_top st) k a G2 T1 Hk) as Hi.
+    pose proof (zget_some_range _ _ _ Hk) as Hr. destruct Hs as [_ Ht].
+    destruct (c_idx a <? d_top st) eqn:E1; [lia|]. destruct (c_idx a <? 0) eqn:E2; [lia|]. auto.
+Qed.
+
+(* ====================================================================================== *)
+(* widgets/list.List                                                                       *)
+(* ====================================================================================== *)
+
+Definition l_wf (n : Z) (st : lstate) : Prop :=
+  valid_index (l_index st) n = true /\ 0 <= l_offset st.
+
+Definition lop_wf (op : lop) : Prop :=
+  match op with LPageUp h => 0 <= h | _ => True end.
+
+Lemma firstn_zlen_zero {A} (w : Z) (t : list A) :
+  (zlen (firstn (Z.to_nat w) t) =? 0) = negb ((0 <? w) && negb (zlen t =? 0)).
+Proof.
+  unfold zlen. rewrite firstn_length. destruct t as [|a t]; simpl length.
+  - rewrite Nat.min_0_r. simpl. destruct (0 <? w); reflexivity.
+  - destruct (0 <? w) eqn:E; simpl; lia.
+Qed.
+
+Lemma l_rows_ok items w index off : forall hN tail i,
+  0 <= i -> tail = (if zlen items <=? i then [] else skipn (Z.to_nat i) items) ->
+  rows_ok items w index i (l_rows w (index - off) (i - off) hN tail) = true.
+Proof.
+  induction hN as [|hN IH]; intros tail i Hi Ht; [reflexivity|].
+  cbn [l_rows]. destruct tail as [|t tail'].
+  - cbn [rows_ok]. assert (Hz : zget items i = None).
+    { destruct (zlen items <=? i) eqn:E.
+      - destruct (zget items i) eqn:Eg; [apply zget_some_range in Eg; lia|reflexivity].
+      - assert (Hl : length (skipn (Z.to_nat i) items) = 0%nat) by (rewrite <- Ht; reflexivity).
+        rewrite skipn_length in Hl. unfold zlen in E. lia. }
+    rewrite Hz. simpl. replace (i - off + 1) with (i + 1 - off) by lia.
+    apply IH; [lia|]. destruct (zlen items <=? i + 1) eqn:E1; [reflexivity|].
+    destruct (zlen items <=? i) eqn:E; [lia|]. exfalso. symmetry in Ht.
+    assert (Hl : length (skipn (Z.to_nat i) items) = 0%nat) by (rewrite Ht; reflexivity).
+    rewrite skipn_length in Hl. unfold zlen in E. lia.
+  - cbn [rows_ok]. destruct (zlen items <=? i) eqn:E; [discriminate|]. symmetry in Ht.
+    apply skipn_cons_nth in Ht as [Hn Hs].
+    assert (Hz : zget items i = Some t). { unfold zget. destruct (i <? 0) eqn:E0; [lia|exact Hn]. }
+    rewrite Hz. unfold println_w1.
+    assert (Hl : zlist_eqb (firstn (Z.to_nat w) t) (firstn (Z.to_nat w) t) = true).
+    { unfold zlist_eqb. generalize (firstn (Z.to_nat w) t). intros l. induction l as [|x l IHl]; simpl; [reflexivity|].
+      rewrite Z.eqb_refl. exact IHl. }
+    rewrite Hl, firstn_zlen_zero. simpl.
+    replace (i - off =? index - off) with (i =? index) by lia.
+    rewrite negb_involutive.
+    assert (Hb : Bool.eqb ((i =? index) && ((0 <? w) && negb (zlen t =? 0))) ((i =? index) && (0 <? w) && negb (zlen t =? 0)) = true).
+    { destruct (i =? index), (0 <? w), (zlen t =? 0); reflexivity. }
+    rewrite Hb. simpl. replace (i - off + 1) with (i + 1 - off) by lia.
+    apply IH; [lia|]. destruct (zlen items <=? i + 1) eqn:E1.
+    + rewrite <- Hs. apply skipn_all2. unfold zlen in E1. lia.
+    + rewrite <- Hs. f_equal. lia.
+Qed.
+
+Lemma l_rows_len w sel : forall hN r tail, length (l_rows w sel r hN tail) = hN.
+Proof. induction hN as [|hN IH]; intros r tail; [reflexivity|]. simpl. destruct tail; simpl; now rewrite IH. Qed.
+
+Lemma l_draw_ok items w h st :
+  l_wf (zlen items) st ->
+  exists rows st', l_draw items w h st = Ok (rows, st') /\ l_wf (zlen items) st' /\
+                   l_index st' = l_index st /\
+                   wl_draw_obs_ok items w h (l_index st') (l_offset st') rows = true.
+Proof.
+  intros [Hv Ho]. pose proof Hv as Hv0. unfold l_draw, wl_draw_obs_ok. unfold valid_index in Hv. pose proof (zlen_nonneg items) as Hn.
+  destruct (h <=? 0) eqn:Eh.
+  - exists [], st. split; [reflexivity|]. split; [split; [exact Hv0|exact Ho]|]. split; reflexivity.
+  - set (off' := if l_offset st + h <=? l_index st then l_index st - h + 1
+                 else if l_index st <? l_offset st then l_index st else l_offset st).
+    assert (Hoff : 0 <= off' <= zlen items /\ off' <= l_index st < off' + h).
+    { unfold off'. destruct (l_offset st + h <=? l_index st) eqn:E1; [lia|].
+      destruct (l_index st <? l_offset st) eqn:E2; lia. }
+    unfold zslice. destruct ((off' <? 0) || (zlen items <? off') || (zlen items <? zlen items)) eqn:E; [lia|].
+    eexists _, _. split; [reflexivity|]. split; [split; [exact Hv0|cbn [l_offset]; lia]|]. cbn [l_index l_offset]. split; [reflexivity|].
+    replace (off' <=? l_index st) with true by lia. replace (l_index st <? off' + h) with true by lia.
+    replace (0 <=? off') with true by lia. simpl.
+    unfold zlen at 1. rewrite l_rows_len. replace (Z.of_nat (Z.to_nat h) =? h) with true by lia. simpl.
+    replace 0 with (off' - off') at 1 by lia. apply l_rows_ok; [lia|].
+    destruct (zlen items <=? off') eqn:E3.
+    + replace (Z.to_nat (zlen items - off')) with 0%nat by lia. reflexivity.
+    + apply firstn_all2. rewrite skipn_length. unfold zlen. lia.
+Qed.
+
+Lemma lstep_ok items st op :
+  l_wf (zlen items) st -> lop_wf op ->
+  exists items' st' rows, lstep items st op = Ok (items', st', rows) /\ l_wf (zlen items') st' /\
+    match op with
+    | LDraw w h => wl_draw_obs_ok items w h (l_index st') (l_offset st') rows = true
+    | _ => True
+    end.
+Proof.
+  intros Hw Ho. pose proof Hw as [Hv Hoff]. unfold valid_index in Hv. pose proof (zlen_nonneg items) as Hn.
+  destruct op as [| | | |hh|hh|its|w h]; simpl;
+    try (eexists _, _, _; split; [reflexivity|]; split; [|exact I]; split; [unfold valid_index; simpl; lia|simpl; lia]).
+  - pose proof (zlen_nonneg its). eexists _, _, _; split; [reflexivity|]; split; [|exact I]; split; [unfold valid_index; simpl; lia|simpl; lia].
+  - destruct (l_draw_ok items w h st Hw) as (rows & st' & -> & H1 & _ & H3). eauto.
+Qed.
+
+Theorem wl_trace_model_ok : forall ops items st,
+  l_wf (zlen items) st -> Forall lop_wf ops -> wl_trace_ok items (wl_run items st ops) = true.
+Proof.
+  induction ops as [|op ops IH]; intros items st Hw Ho; [reflexivity|].
+  pose proof (Forall_inv Ho) as Ho1. pose proof (Forall_inv_tail Ho) as Ho'.
+  destruct (lstep_ok items st op Hw Ho1) as (items' & st' & rows & E & Hw' & Hd).
+  cbn [wl_run]. rewrite E. cbn [wl_trace_ok].
+  assert (Hit : match op with LSetItems it' => it' | _ => items end = items').
+  { destruct op; simpl in E; try (injection E as <- _ _; reflexivity).
+    destruct (l_draw items w h st) as [[? ?]|]; [injection E as <- _ _; reflexivity|discriminate]. }
+  rewrite Hit. rewrite (proj1 Hw'). simpl. rewrite (IH items' st' Hw' Ho').
+  destruct op; try reflexivity. rewrite Hd. reflexivity.
 Qed.
